@@ -348,6 +348,20 @@ def check_header(case, stats):
                 hdr, dflt, r3[1][:2] if r3[0] != "ok" else r3[1]["feature"]["language"]))
 
 
+def check_after_unknown(case, stats):
+    """a header naming an unknown dialect is reported, nothing more: a second header below it (still above the feature) selects the dialect"""
+    d = case["dialect"]
+    D = DIALECTS[d]
+    gap = ["# c", ""] if case["gap"] else []
+    lines = ["#language: qq-unknown"] + gap + ["# language: " + d, D["feature"][0] + ": f", " " + D["scenario"][0] + ": s", "  " + D["given"][-1] + "x"]
+    text = "\n".join(lines) + "\n"
+    stats.case(text, True, sample=case)
+    r = gh.parse(text, "en" if d != "en" else "fr")
+    want = [(1, 1, "(1:1): Language not supported: qq-unknown")]
+    if r[0] == "ok" or r[1] != want:
+        raise Violation(case, "unknown header, then a header for %s and a %s document: errors %r, expected exactly %r\n%s" % (d, d, "none (accepted)" if r[0] == "ok" else r[1][:3], want, text))
+
+
 def unit_header(a):
     stats = Stats()
     if a["shard"] == 0:
@@ -359,6 +373,7 @@ def unit_header(a):
                     for i, pos in enumerate(("top", "after-comment")):
                         cases.append({"sub": "header", "header": ["#language: ", "# language:"][i] + v, "position": pos, "default": "en" if d != "en" else "fr", "reuse": i})
         sweep(stats, cases, check_header)
+        sweep(stats, [{"sub": "after-unknown", "dialect": d, "gap": g} for d in sorted(DIALECTS) for g in (0, 1)], check_after_unknown)
     strat = st.binary(min_size=40, max_size=40).map(lambda b: g_header(Src(b)))
     hyp(stats, strat, check_header, a["n"], shard_seed(a["seed"], a["shard"], 5))
     return stats
@@ -459,7 +474,7 @@ def unit_files(a):
 
 
 def replay(case, stats):
-    return {"kw": check_kw, "foreign": check_foreign, "pair": check_pair, "nearmiss": check_nearmiss, "header": check_header, "files": check_files, "table-after-use": check_table_after_use, "locale": check_locale, "copied-matcher": check_copied_matcher}[case["sub"]](case, stats)
+    return {"kw": check_kw, "foreign": check_foreign, "pair": check_pair, "nearmiss": check_nearmiss, "header": check_header, "files": check_files, "table-after-use": check_table_after_use, "locale": check_locale, "copied-matcher": check_copied_matcher, "after-unknown": check_after_unknown}[case["sub"]](case, stats)
 
 
 def run(ctx):
